@@ -148,8 +148,9 @@ def render_stmt(shape, k, dirs):
     raise KeyError(shape)
 
 
-def render(events, shapes):
-    lines = []
+def render(events, shapes, bare=False):
+    """bare: every run of source lines opens with an empty prompt line (a bare '>>>' used as spacing)"""
+    lines = ['>>>'] if bare else []
     j = 0
     for n, ev in enumerate(events):
         if ev[0] == 'block':
@@ -158,6 +159,8 @@ def render(events, shapes):
             src, want = render_stmt(shapes[j % len(shapes)], ev[2], ev[1])
             j += 1
             lines += src + want
+            if bare and want and n + 1 < len(events):
+                lines.append('>>>')
     return '\n'.join(lines)
 
 
@@ -324,7 +327,7 @@ def run(ctx):
     cases = []
     for idx, events in enumerate(gen_events(ctx)):
         shapes = SHAPES[idx % len(SHAPES):] + SHAPES[:idx % len(SHAPES)]
-        cases.append(dict(doc=render(events, shapes), expect=spec_trace(events), events=events))
+        cases.append(dict(doc=render(events, shapes, bare=(idx % 5 == 2)), expect=spec_trace(events), events=events))
     # default options behave like a leading block directive
     rng = ctx.rng('defaults')
     for _ in range(150 if ctx.tier == 'quick' else 2000):
